@@ -36,7 +36,7 @@ pub fn fixture_program(curve: Curve, g: usize, g2: usize) -> Program {
         body.push(Op::Constrain { lc: vec![(Var::L(g1), Sc::C(ScalarSpec::One)), (Var::Com(0), Sc::C(ScalarSpec::One))], err: None, base: None });
         ops.push(Op::Closure(body));
     }
-    Program { curve, tlabel: 0, pre: vec![], ops, owned: false, cap_p: Cap::Big, cap_v: Cap::Big, party_cap: 1, seed: 42, pc: 0 }
+    Program { curve, tlabel: 0, pre: vec![], ops, owned: false, cap_p: Cap::Big, cap_v: Cap::Big, party_cap: 1, seed: 42, pc: 0, gens: 0 }
 }
 
 pub struct Fixture<G: AffineRepr> {
